@@ -16,7 +16,7 @@ def obligations(tier):
     obs = []
     t = 60 if tier == 'quick' else 300
     months = list(range(1, 13))
-    obs.append(Ob('O15.1-weekday', 'xh', 'harness.C15:h_weekday', twin='harness.C15:t_weekday',
+    obs.append(Ob('O15.1-weekday', 'sx', 'harness.C15:h_weekday', twin='harness.C15:t_weekday',
                   slices=[{'m': m, 'dow': d} for m in (months if tier == 'thorough' else (1, 2, 3, 12)) for d in range(1, 8)] +
                          [{'m': 2, 'dow': d, 'feb29': 1} for d in range(1, 8)],
                   timeout=t, descr='weekday TIMEX resolves to that weekday immediately before/after the reference',
@@ -26,24 +26,24 @@ def obligations(tier):
                            'datatypes_timex_expression.timex_date_helpers:TimexDateHelpers.date_of_next_day',
                            'datatypes_timex_expression.timex_value:TimexValue.date_value',
                            'datatypes_timex_expression.timex_inference:TimexInference.infer']))
-    obs.append(Ob('O15.1-helpers', 'xh', 'harness.C15:h_day_helpers', slices=[{'m': m} for m in months], timeout=t,
+    obs.append(Ob('O15.1-helpers', 'sx', 'harness.C15:h_day_helpers', slices=[{'m': m} for m in months], timeout=t,
                   descr='date_of_last_day/date_of_next_day: right weekday, nearest strictly before/after',
                   bounds='reference 1950..2090, day 0..6 symbolic',
                   encodes=['datatypes_timex_expression.timex_date_helpers:TimexDateHelpers.date_of_last_day',
                            'datatypes_timex_expression.timex_date_helpers:TimexDateHelpers.date_of_next_day']))
-    obs.append(Ob('O15.2-duration', 'xh', 'harness.C15:h_duration', twin='harness.C15:t_duration',
+    obs.append(Ob('O15.2-duration', 'sx', 'harness.C15:h_duration', twin='harness.C15:t_duration',
                   slices=[{'unit': u} for u in ('years', 'months', 'weeks', 'days', 'hours', 'minutes', 'seconds')], timeout=t,
                   descr='duration TIMEX resolves to amount x unit length in seconds', bounds='amount 1..1000000 (int)',
                   encodes=[R + 'resolve_duration', 'datatypes_timex_expression.timex_value:TimexValue.duration_value']))
-    obs.append(Ob('O15.3-month', 'xh', 'harness.C15:h_month_range', twin='harness.C15:t_month_range', timeout=t,
+    obs.append(Ob('O15.3-month', 'sx', 'harness.C15:h_month_range', twin='harness.C15:t_month_range', timeout=t,
                   descr='YYYY-MM resolves to [first day, first day of next month) incl. December', bounds='year 1..9998, month 1..12',
                   encodes=[R + 'resolve_date_range', R + 'month_date_range']))
-    obs.append(Ob('O15.3-openmonth', 'xh', 'harness.C15:h_open_month_range', timeout=t,
+    obs.append(Ob('O15.3-openmonth', 'sx', 'harness.C15:h_open_month_range', timeout=t,
                   descr='XXXX-MM resolves to that month in last and this year', bounds='reference year 1950..2090',
                   encodes=[R + 'resolve_date_range', R + 'month_date_range']))
-    obs.append(Ob('O15.3-year', 'xh', 'harness.C15:h_year_range', timeout=t, descr='YYYY resolves to [Jan 1, next Jan 1)',
+    obs.append(Ob('O15.3-year', 'sx', 'harness.C15:h_year_range', timeout=t, descr='YYYY resolves to [Jan 1, next Jan 1)',
                   bounds='year 1..9998', encodes=[R + 'year_date_range']))
-    obs.append(Ob('O15.4-week', 'xh', 'harness.C15:h_week_range', twin='harness.C15:t_week_range', timeout=t,
+    obs.append(Ob('O15.4-week', 'sx', 'harness.C15:h_week_range', twin='harness.C15:t_week_range', timeout=t,
                   slices=[{'_': 0}], descr='YYYY-Www resolves to [Monday of ISO week, +7 days), well formed',
                   bounds='year 1950..2090, week 1..52', encodes=[R + 'week_date_range']))
     obs.append(Ob('O15.0-format', 'xh', 'harness.C15:h_fixed_format', timeout=t,
